@@ -330,3 +330,117 @@ def p_c09(tier):
 
 
 PLANS["C09"] = p_c09
+
+# ================================================================ sweeps
+
+SWEEP_RULE = ("every case is one input (or descriptor + input) executed on the real parser under the eager environment and compared call by call, byte by byte "
+              "and variable by variable with the reference model; distinct = distinct (final parser state, output) hashes")
+
+
+def sw_shards(name, prop, tier, n, *extra, asan=False, tagp=None):
+    return [sweep("%s-%s-%d" % (tagp or name, "-".join(str(e) for e in extra if not str(e).startswith("--")) or "all", i), name, "--prop", prop, "--tier", tier,
+                  "--shard", i, "--nshards", n, *extra, asan=asan) for i in range(n)]
+
+
+def p_c02(tier):
+    quick = tier == "quick"
+    sh = sw_shards("tables", "C02", tier, 16 if quick else 48, "--family", "small", "--maxk", 3 if quick else 4)
+    sh += sw_shards("tables", "C02", tier, 4, "--family", "alphabet")
+    sh += sw_shards("tables", "C02", tier, 16, "--family", "lanes")
+    return {"shards": sh, "require": ["runs", "implicit_hits", "ambiguous_lf", "ambiguous_eq", "notfound", "test_forms"],
+            "technique": "exhaustive enumeration of descriptors and typed names on the real parser, compared with a reference transcription of the resolution rule",
+            "bounds": "all tables of 1..%d commands named over {A,B}^(1..3) x every disable subset x optional implicit-write member x all typed names {A,B}^(1..4) x 4 suffixes; "
+                      "all 256 byte values in place of each of the 45 legal name characters (both letter cases in the descriptor); tables of 4..257 commands in 1-3 groups "
+                      "(exact, unique and ambiguous abbreviation of every index, tight and loose buffer)" % (3 if quick else 4),
+            "rule": SWEEP_RULE, "assumptions": ["eager environment; independence from the schedule is C12"]}
+
+
+PLANS["C02"] = p_c02
+
+
+def p_c04(tier):
+    quick = tier == "quick"
+    sh = sw_shards("numeric", "C04", tier, 39, "--family", "all", "--maxlen", 5 if quick else 6)
+    sh += sw_shards("numeric", "C04", tier, 32, "--family", "bounds")
+    return {"shards": sh, "require": ["runs", "wvar_ok", "wvar_err"],
+            "technique": "exhaustive enumeration of argument texts on the real parser; acceptance decided on the text by arbitrary-precision comparison in the reference",
+            "bounds": "all texts <=%d over 13 symbols for INT/UINT/HEX x width 1,2,4; boundary family: (2^7,2^8,2^15,2^16,2^31,2^32,2^63,2^64,10^19,10^20)+-3 and q*2^64+r (q<=16), "
+                      "signs, 0..30 leading zeros, both hex cases, every digit count 1..80; widths 1,2,4,3,8; access RW/RO/WO; argument positions 1..3; need_all on/off; handler on/off" % (5 if quick else 6),
+            "rule": SWEEP_RULE, "assumptions": ["argument texts contain no NUL byte", "magnitudes beyond 64 bits for read-only variables are outside the statement"]}
+
+
+PLANS["C04"] = p_c04
+
+
+def p_c05(tier):
+    sh = sw_shards("buffers", "C05", tier, 48)
+    return {"shards": sh, "require": ["runs", "wvar_ok", "wvar_err"],
+            "technique": "exhaustive enumeration of argument texts on the real parser against a reference decoder; canaries after every variable",
+            "bounds": "hex buffers and strings, data_size 1..8,16,63,64, access RW/RO/WO, argument positions 1..3: k legal units (k=0..data_size+1, plain/escaped mixes) followed by every byte 1..255 "
+                      "(closed and unclosed, every escape character); all texts over 4 (hex) / 6 (string) symbols up to 2*data_size+3 for data_size<=3",
+            "rule": SWEEP_RULE, "assumptions": ["argument texts contain no NUL byte"]}
+
+
+PLANS["C05"] = p_c05
+
+
+def p_c06(tier):
+    sh = sw_shards("args", "C06", tier, 24)
+    sh += [s for s in c10_shards("quick", mon="C06", prop="C06") if "cmd-R" in s["tag"] or "cmd-T" in s["tag"] or "evt" in s["tag"]]
+    return {"shards": sh, "require": ["runs", "overlong", "lines_ok"],
+            "technique": "exhaustive positional byte sweep on the real parser (write handlers) and explicit-state exploration of the return-code scenario (read/test handlers of both machines)",
+            "bounds": "caps 6,7,8,16 shared+separate; plain, implicit and variable-backed write commands; argument length 0..3*cap with every byte value (except LF) at every position; "
+                      "all strings over {a,A,CR,NUL} up to cap+1; read/test handlers: data, length, NUL terminator and true capacity checked at every invocation of the C10 scenario",
+            "rule": SWEEP_RULE, "assumptions": []}
+
+
+PLANS["C06"] = p_c06
+
+
+def p_c07(tier):
+    quick = tier == "quick"
+    sh = sw_shards("roundtrip", "C07", tier, 32, "--family", "numeric")
+    sh += sw_shards("roundtrip", "C07", tier, 8, "--family", "buffers")
+    sh += sw_shards("roundtrip", "C07", tier, 8, "--family", "mixes")
+    if not quick:
+        for t in (0, 1, 2):
+            sh += sw_shards("roundtrip", "C07", tier, 64, "--family", "lean32", "--type", t, tagp="lean32-t%d" % t)
+    return {"shards": sh, "require": ["runs", "rvar", "wvar_ok"], "deadline": 120 if quick else 2400,
+            "technique": "exhaustive value sweep on the real parser: READ response fed back as WRITE, bit-identical storage required (differential, no hand-written expectation)",
+            "bounds": "every 8- and 16-bit pattern of INT/UINT/HEX; 32-bit: %s; byte buffers: all contents for data_size<=2, every byte value at every position up to 64; strings: all strings over 9 symbols "
+                      "for length<data_size<=5, every non-CR non-NUL byte at every position up to 64; all 125 ordered type triples x 27 value combinations at generous, exact-fit and one-short capacity"
+                      % ("hi16 or lo16 in a 10-element edge set (1.3M values per type)" if quick else "all 2^32 values of each of the three types (lean loop) plus the 40-element edge cross through the full harness"),
+            "rule": SWEEP_RULE, "assumptions": []}
+
+
+PLANS["C07"] = p_c07
+
+
+def p_c08(tier):
+    sh = sw_shards("access", "C08", tier, 16)
+    sh += sw_shards("numeric", "C08", tier, 16, "--family", "bounds")
+    sh += sw_shards("buffers", "C08", tier, 32)
+    return {"shards": sh, "require": ["runs", "rvar", "wvar_ok", "wvar_err", "test_forms"],
+            "technique": "exhaustive enumeration over access-mode assignments on the real parser; read-only storage byte-compared after every API call; write-only contents varied (0x00/0xA5/'g') under an oracle that never reads them",
+            "bounds": "three-variable commands: 5 leading types x all 27 access assignments x read/write handler subsets x need_all x 3 write-only fill patterns x 17 request lines (all forms, valid, invalid, over-range, missing), "
+                      "each also through the unsolicited READ and TEST paths; plus the C04 boundary and C05 buffer families with access as a dimension",
+            "rule": SWEEP_RULE, "assumptions": ["over-range text for a read-only variable is outside the statement"]}
+
+
+PLANS["C08"] = p_c08
+
+
+def p_c19(tier):
+    quick = tier == "quick"
+    sh = sw_shards("describe", "C19", tier, 16, "--family", "vars", "--maxlen", 3, "--restricted3", 1 if quick else 0)
+    sh += sw_shards("describe", "C19", tier, 4, "--family", "shapes", "--pairs", 0, tagp="shapes1")
+    sh += sw_shards("describe", "C19", tier, 16, "--family", "shapes", "--pairs", 1 if quick else 2, tagp="shapes2")
+    return {"shards": sh, "require": ["runs", "test_forms", "list_lines"],
+            "technique": "exhaustive enumeration of descriptors on the real parser: TEST text and command list built from the descriptor by the reference; every request form of every listed command submitted",
+            "bounds": "variable lists of length 0..3 over 15 type/width x 3 access x named/unnamed (%s), description and test handler on/off, both machines, exact-fit and one-short capacity; "
+                      "command shapes: 16 handler subsets x only_test/disable/group-disable/implicit_write x 5 variable profiles, alone and in ordered pairs (%s), list at capacity 32, 9 (exact) and 8 (one short)"
+                      % ("third variable restricted in quick" if quick else "all 729k lists", "partner restricted to one representative per flag set" if quick else "all ordered pairs"),
+            "rule": SWEEP_RULE, "assumptions": ["implicit-write commands that own variables are excepted by the statement and not generated"]}
+
+
+PLANS["C19"] = p_c19
